@@ -567,3 +567,29 @@ def run(index, rep, tier):
                     rep.check(ok_, "R10.16", rsm.qualname, "label table filled last-wins", fn_where(rsm, st), "the mapper's label table keeps the first member with a label (`not in` guard)",
                               "%s stores `%s` for every member without first testing that the label is not in the table yet: the last of several members with one label wins, while TaxonNamespace.require_taxon / get_taxon answer with the first - a tree read into such a namespace binds its leaves to another Taxon than the one look-ups by the same label return" % (rsm.qualname, norm_stmt(st)[:60]))
         rep.floor("R10.16", "stores into the mapper's label table while walking the namespace", 1, nst)
+
+    # ---- R10.17 a borrowed lock is given back on every way out
+    with rep.section("R10.17"):
+        rep.rule("R10.17", "a borrowed lock is given back on every way out: a library function that saves `<namespace>.is_mutable` in a local, overwrites the flag for the duration of its work and writes the saved value back, does the writing-back in a `finally` clause - the work in between parses a document and refuses unknown labels by raising, and on that path a namespace handed over mutable would stay locked (or one handed over locked would stay open and go on gaining members)")
+        n17 = 0
+        for mod in sorted(index.modules):
+            for f in index.functions_in_module(mod):
+                saves = {}
+                for st in walk_no_nested(f.node):
+                    if isinstance(st, ast.Assign) and len(st.targets) == 1 and isinstance(st.targets[0], ast.Name) and isinstance(st.value, ast.Attribute) and st.value.attr == "is_mutable" and "namespace" in norm(st.value.value).lower():
+                        saves[st.targets[0].id] = norm(st.value.value)
+                if not saves:
+                    continue
+                pm_ = parent_map(f.node)
+                for st in walk_no_nested(f.node):
+                    if isinstance(st, ast.Assign) and len(st.targets) == 1 and isinstance(st.targets[0], ast.Attribute) and st.targets[0].attr == "is_mutable" and isinstance(st.value, ast.Name) and st.value.id in saves and norm(st.targets[0].value) == saves[st.value.id]:
+                        n17 += 1
+                        cur, infinal = st, False
+                        while cur in pm_:
+                            par = pm_[cur]
+                            if isinstance(par, ast.Try) and any(cur is x for x in par.finalbody):
+                                infinal = True
+                            cur = par
+                        rep.check(infinal, "R10.17", f.qualname, "saved mutability restored on the normal path only", fn_where(f, st), "%s: `%s` sits in a finally clause" % (f.name, norm_stmt(st)[:50]),
+                                  "%s overwrites `%s.is_mutable` for the duration of its work and restores it with `%s` outside any `finally`: when the work in between raises (an unknown label in a namespace that may not grow, a cell that is not a number) the flag keeps the temporary value - a namespace handed over mutable stays locked, one handed over locked stays open and goes on gaining members" % (f.qualname, saves[st.value.id], norm_stmt(st)[:50]))
+        rep.floor("R10.17", "save / overwrite / restore sequences on a namespace's is_mutable", 1, n17)
